@@ -228,6 +228,8 @@ class Gen:
         for i in range(r.choice(p["npools"])):
             cls = r.choice(p["cls"])
             ps = {"idx": i, "cls": cls, "size": r.choice(p["sizes"]), "name": r.choice([None, None, f"p{i}", "same"])}
+            if p.get("size_track"):
+                ps["size_track"] = True
             pools.append(ps)
         for ps in pools:
             if ps["cls"] == "S":
